@@ -2697,7 +2697,9 @@ private:
       }
       if (_config.serverTls.verifyPeer)
       {
-        ::SSL_CTX_set_verify(_sslSrv, SSL_VERIFY_PEER, nullptr);
+        // Require a client certificate: SSL_VERIFY_PEER alone only verifies a
+        // certificate IF the client chooses to send one.
+        ::SSL_CTX_set_verify(_sslSrv, SSL_VERIFY_PEER | SSL_VERIFY_FAIL_IF_NO_PEER_CERT, nullptr);
         if (!_config.serverTls.caFile.empty() || !_config.serverTls.caPath.empty())
         {
           if (::SSL_CTX_load_verify_locations(_sslSrv,
